@@ -7,6 +7,8 @@ package main
 
 import (
 	"fmt"
+	"os"
+	"os/exec"
 	"sort"
 	"strings"
 	"unsafe"
@@ -386,6 +388,41 @@ func runC19(c *Ctx) {
 			}
 			exploreScenario(c, sc, bound)
 		}
+	}
+	if c.Level("race-detector pass (supporting)") && c.Unit(func() string { return "the scenario bodies free-running under -race" }) {
+		racePass(c)
+	}
+}
+
+// racePass runs the free-running race-detector binary (supporting evidence).
+func racePass(c *Ctx) {
+	bin := verifRoot + "/bin/racepass"
+	if _, err := os.Stat(bin); err != nil {
+		c.Note("race-detector pass skipped: binary not built")
+		return
+	}
+	cmd := exec.Command(bin, fmt.Sprint(c.Pick(200, 1000)))
+	cmd.Env = append(os.Environ(), "GORACE=halt_on_error=1 exitcode=66")
+	out, err := cmd.CombinedOutput()
+	c.Count("race_detector_pass_runs", 1)
+	if ee, ok := err.(*exec.ExitError); ok && ee.ExitCode() == 66 {
+		txt := string(out)
+		if len(txt) > 1500 {
+			txt = txt[:1500]
+		}
+		site := "?"
+		for _, l := range strings.Split(txt, "\n") {
+			if strings.Contains(l, "github.com/jmeaster30/vore/libvore") {
+				site = strings.TrimSpace(l)
+				if i := strings.Index(site, "("); i > 0 {
+					site = site[:i]
+				}
+				break
+			}
+		}
+		c.Violation("RACE-DETECTOR "+site, "free-running calls under the Go race detector: "+strings.ReplaceAll(txt, "\n", " | "), map[string]any{"kind": "racepass", "report": txt})
+	} else if err != nil {
+		c.Note(fmt.Sprintf("race-detector pass ended with %v: %.200s", err, out))
 	}
 }
 
